@@ -50,7 +50,34 @@ def special_anchor(rng):
     return datetime(y, rng.randrange(1, 13), 1)
 
 
+def _just_beside_a_boundary(rng, a, b):
+    """Moves the earlier end to 1 ms after (or the later end to 1 ms before) a boundary of a random unit."""
+    from oracles import calendar as C
+
+    u = rng.choice(["second", "minute", "hour", "hour", "day", "week", "month"])
+    lo, hi = (a, b) if a <= b else (b, a)
+    try:
+        if rng.random() < 0.5:
+            lo2 = C.floor(u, lo) + timedelta(milliseconds=1)
+            if LO <= lo2 < hi:
+                lo = lo2
+        else:
+            hi2 = C.ceil(u, hi) - timedelta(milliseconds=1)
+            if lo < hi2 < HI:
+                hi = hi2
+    except (ValueError, OverflowError):
+        pass
+    return (lo, hi) if a <= b else (hi, lo)
+
+
 def gen_time_domain(rng, min_span_ms=1, max_span_ms=250 * 365 * 86400000):
+    a, b, m, tag = _gen_time_domain(rng, min_span_ms, max_span_ms)
+    if rng.random() < 0.08:
+        a, b = _just_beside_a_boundary(rng, a, b)
+    return a, b, m, tag
+
+
+def _gen_time_domain(rng, min_span_ms=1, max_span_ms=250 * 365 * 86400000):
     """Return (a, b, m, tag): a != b datetimes at ms resolution, either orientation; m None = default count."""
     m = rng.choice([None, None, None, 2, 3, 5, 8, 10, 12, 20, 30, 50, rng.randrange(2, 51)])
     r = rng.random()
